@@ -233,7 +233,7 @@ def task(ctl, jid, kind, catch=False):
             if kind == 2:
                 raise TaskBase(('base', jid))
             if kind == 4:
-                raise SystemExit(3)           # the task itself calls sys.exit(3): no termination signal is involved
+                _sys.exit(3)                  # the task itself calls sys.exit(3) (inside Worker.__call__ that is the worker's own wrapper): no termination signal is involved
             if kind == 5:
                 raise KeyboardInterrupt()
             if kind == 6:
